@@ -17,6 +17,7 @@ import pymbolic.mapper.constant_folder as foldmod
 
 from ..core import check, short
 from ..gen import expr as G
+from ..gen import scale
 from ..mon import streams
 from ..mon.trace import HandlerTrace
 from ..ref import normal, ratfun, refsem
@@ -507,6 +508,35 @@ def workload(ctx):
                         # (the collector is quadratic in the number of terms; thousands of
                         # terms are a cost, not a correctness, matter)
                         ctx.run("C11.collect", (pre, rng.choice([frozenset(), frozenset([V[0]])])))
+        # scale: monomials / sums of 9 .. 130 factors (nested products, neutral 1s and 0
+        # summands included), (x + 1) ** n for n up to 66, many like terms to merge
+        x, y, z = V
+        for w in scale.WIDTHS:
+            if not ctx.mine("wide"):
+                continue
+            fs = [rng.choice([x, y, z, 2, 3, 1, 1, -1, p.Power(x, 2), p.Product((y, 1, z)),
+                              p.Product((2, p.Product((x, y))))]) for _ in range(w)]
+            ts = [rng.choice([x, y, 0, 0, 1, -2, p.Product((2, x)), p.Sum((y, 0, z)),
+                              p.Sum((p.Sum((x, 1)), -1))]) for _ in range(w)]
+            for e in (p.Product(tuple(fs)), p.Sum(tuple(ts)),
+                      p.Sum((p.Product(tuple(fs)), p.Product(tuple(reversed(fs))))),
+                      p.Product((p.Sum(tuple(ts[:6])), p.Product(tuple(fs[:w // 2])))),
+                      p.Sum(tuple(p.Product((i % 5 + 1, rng.choice([x, y]), rng.choice([x, y, z])))
+                                  for i in range(w)))):
+                ctx.case(("wide", normal.typed_key(e)), True, n=0)
+                ctx.count("wide_nodes")
+                ctx.run("C11.flatten", (e,))
+                ctx.run("C11.fold", (e,))
+                if w <= 40:
+                    ctx.run("C11.expand", (e, False))
+            if w <= 66:
+                for base in (p.Sum((x, 1)), p.Sum((x, p.Product((-1, y))))):
+                    e = p.Power(base, w)
+                    ctx.count("high_powers")
+                    ctx.run("C11.expand", (e, False))
+                e = p.Product(tuple(x for _ in range(w)))
+                ctx.run("C11.expand", (e, False))
+                ctx.run("C11.collect", (p.Sum((e, p.Product((2, e)))), frozenset()))
         # direct term-collector inputs: sums of fully expanded multiplicative terms
         for i in range(ctx.per_shard(ctx.pick(1500, 30000))):
             def term():
@@ -567,6 +597,8 @@ def workload(ctx):
         for k, v in tr.handlers().items():
             ctx.count("handler:" + k, v)
         ctx.count("handler:TermCollector.split_term", tr.counts.get("TermCollector.split_term", 0))
+    ctx.floor("wide_nodes", 100)
+    ctx.floor("high_powers", 20)
     ctx.floor("stream:rows", 500)
     ctx.floor("stream:values", 500)
     ctx.floor("stream:row_address_reused", 100)
